@@ -206,7 +206,8 @@ type C4Result struct {
 	Outcome   int                   `json:"outcome"` // 0 function, 1 error, 2 panic, 3 timeout, 4 crash
 	Msg       string                `json:"msg,omitempty"`
 	Site      string                `json:"site,omitempty"` // innermost parser2 frame of a panic
-	Micros    int64                 `json:"us"`
+	Micros    int64                 `json:"us"`      // judged time: min(wall, process CPU) of Generate
+	WallMicros int64                `json:"wall_us"`
 	Tokens    []parser2.VerifToken  `json:"tokens"`
 	TokHang   bool                  `json:"tok_hang,omitempty"`
 	StackKB   int64                 `json:"stack_kb"` // memory the process obtained from the OS during Generate (MemStats.Sys): deep recursion = stack
@@ -312,6 +313,7 @@ func c04RunOne(c *C4Case, hardScale float64) C4Result {
 	evalErr := ""
 	var m0, m1 runtime.MemStats
 	runtime.ReadMemStats(&m0)
+	cpu0 := c12Cpu()
 	t0 := time.Now()
 	go func() {
 		var o out
@@ -340,6 +342,12 @@ func c04RunOne(c *C4Case, hardScale float64) C4Result {
 	select {
 	case o := <-och:
 		res.Micros = time.Since(t0).Microseconds()
+		res.WallMicros = res.Micros
+		// judged: the smaller of wall time and CPU time of the process during the call - on a machine that other jobs keep
+		// busy the wall time of a 100 us call can be 100 ms; a blocked call consumes no CPU and is caught by the watchdog
+		if cpu := (c12Cpu() - cpu0).Microseconds(); cpu < res.Micros {
+			res.Micros = cpu
+		}
 		runtime.ReadMemStats(&m1)
 		res.StackKB = (int64(m1.Sys) - int64(m0.Sys)) / 1024
 		switch {
@@ -698,6 +706,9 @@ func c04Streams(seed int64, tier string, boost int) []C4Case {
 		}
 	}
 
+	// ---- wide constructs (many arguments, parameters, locals, entries, cases; long chains)
+	s.wide(thorough)
+
 	// ---- constant expressions whose folding panics, at every position the parser optimizes
 	s.foldBombs(thorough)
 
@@ -1038,7 +1049,7 @@ func c04Human(c *C4Case, r *C4Result, src string) map[string]any {
 
 func cmdC04(seed int64, tier, outDir string) {
 	sum := NewSummary("C04", seed, tier)
-	sum.Rule = "streams: corpus of past failures; stray closers ) ] } ; and superscripts at every rune position of programs with superscripts and comfort products (two-token lexemes); fold bombs (constant expressions whose folding at Generate time panics, fails or recurses into the stack guard - self application, pure host functions that panic/fail, failing constant index/member/method/operator - at every position the parser hands to the optimizer, optimizer on/off, a returned function is evaluated and must return); unterminated string/comment/quoted identifier, NUL and invalid UTF-8 inserted at every position of valid programs; uniform and alphabet-biased random bytes; token soup over the language's alphabet; mutations (delete/insert/duplicate/swap/truncate) of valid programs (built-in programs per grammar and the C15 program generator); inputs up to 64 KiB; nesting up to 30000 (parentheses, brackets, braces, unary chains, if chains, closures, calls ...) x {value, bool, float generators, a generator without binary operators, one whose prefix operator is its last binary operator} x {comments, comfort}. Non-trivial = Generate returned an error on an input of at least 3 tokens, or a function on an input of at least 10 tokens; distinct by (generator, comments, comfort, outcome, error message class, token type sequence)"
+	sum.Rule = "streams: corpus of past failures; wide constructs (calls of vararg static functions, closure values, methods, map-field closures with 1..200 arguments, 1..200 locals in scope in front of a call, functions with 1..200 parameters, list/map literals up to 5000 entries, switch with many cases, long operator and method chains; sizes around 32, 64, 128, 256; optimizer on/off); stray closers ) ] } ; and superscripts at every rune position of programs with superscripts and comfort products (two-token lexemes); fold bombs (constant expressions whose folding at Generate time panics, fails or recurses into the stack guard - self application, pure host functions that panic/fail, failing constant index/member/method/operator - at every position the parser hands to the optimizer, optimizer on/off, a returned function is evaluated and must return); unterminated string/comment/quoted identifier, NUL and invalid UTF-8 inserted at every position of valid programs; uniform and alphabet-biased random bytes; token soup over the language's alphabet; mutations (delete/insert/duplicate/swap/truncate) of valid programs (built-in programs per grammar and the C15 program generator); inputs up to 64 KiB; nesting up to 30000 (parentheses, brackets, braces, unary chains, if chains, closures, calls ...) x {value, bool, float generators, a generator without binary operators, one whose prefix operator is its last binary operator} x {comments, comfort}. Non-trivial = Generate returned an error on an input of at least 3 tokens, or a function on an input of at least 10 tokens; distinct by (generator, comments, comfort, outcome, error message class, token type sequence)"
 	log.SetOutput(io.Discard)
 	cw := NewCaseWriter(outDir, "From P2 Require Import Base.Prelude Lex.Token Lex.Tok Run.C15Run Run.C04Run.", "c04_case", "c04_id", "c04_im", "c04_is", 250)
 	base := c04CoqTables()
@@ -1225,7 +1236,7 @@ func cmdC04(seed int64, tier, outDir string) {
 	cw.Flush()
 	sum.CaseFiles = cw.files
 	sum.Extra["max_time_over_bound"] = maxRatio
-	sum.Extra["time_bound"] = "50 ms + 50 us x bytes + 250 us x KB of fresh memory the call needed (memory <= 16 MB + 32 KB x bytes; the runtime obtains memory in 4 MB steps), judged on the fastest of up to three runs (the first under 16-fold parallel load, the others alone)"
+	sum.Extra["time_bound"] = "50 ms + 50 us x bytes + 250 us x KB of fresh memory the call needed (memory <= 16 MB + 32 KB x bytes; the runtime obtains memory in 4 MB steps), time = min(wall, process CPU time) of the call, judged on the fastest of up to three runs (the first under 16-fold parallel load, the others alone)"
 	sort.SliceStable(sum.GoViolations, func(i, j int) bool {
 		return sum.GoViolations[i].Human["bytes"].(int) < sum.GoViolations[j].Human["bytes"].(int)
 	})
